@@ -359,10 +359,10 @@ func genC09(async bool) func(rt *rapid.T) c09Case {
 }
 
 func TestC09VotingMachine(t *testing.T) {
-	common.Check(t, "C09", "TestC09VotingMachine", 2000, 60000, genC09(false), c09Prop)
+	common.Check(t, "C09", "TestC09VotingMachine", 8000, 200000, genC09(false), c09Prop)
 }
 
 // TestC09RaceVotingMachine runs the same property with concurrent vote verification (the production default) under -race.
 func TestC09RaceVotingMachine(t *testing.T) {
-	common.Check(t, "C09", "TestC09RaceVotingMachine", 300, 8000, genC09(true), c09Prop)
+	common.Check(t, "C09", "TestC09RaceVotingMachine", 800, 12000, genC09(true), c09Prop)
 }
